@@ -30,16 +30,20 @@ CODES = {
     6: ("worker-outlives-stopped", "a worker registered before Stop's wait returned was still running when the stopper reported itself stopped"),
     7: ("closer-contract", "a closer was called twice, not at all, before the stop channel closed, before the workers were done, or after stopped"),
     8: ("semaphore-slot", "a limited task ran without holding its semaphore slot, or a slot stayed taken after its task was over or refused"),
+    9: ("semaphore-slot-leaked", "a semaphore slot was still taken although NumTasks() was 0 and the task that took it had ended (returned or panicked)"),
+    10: ("throttled-with-room", "RunLimitedAsyncTask returned ErrThrottled although fewer than cap calls could have held a slot"),
 }
 
 RULE = ("controlled: random operation sequences (RunTask, RunAsyncTask, RunLimitedAsyncTask with wait true/false and "
-        "background / WithCancelOn* contexts on 2 semaphores, release of a chosen running body, RunWorker, release of a worker, "
+        "background / WithCancelOn* contexts on 2 semaphores, a chosen running body returns or PANICS (Stopper built with OnPanic), "
+        "RunWorker, a worker returns or panics, "
         "AddCloser, WithCancelOnQuiesce/Stop, call of a returned cancel function, Stop, Quiesce; several Stop/Quiesce per "
         "sequence), total length <= 25 (thorough 40) including a closing tail that releases everything and calls Stop; "
         "executed on the real Stopper with harness-controlled bodies, observables after every operation compared with the "
         "model, event history judged by the oracle.  non-trivial = a Stop or Quiesce was called while a task ran, a worker "
         "lived or a limited call waited; distinct by operation list and capacities.  free: 3-7 goroutines x 4-17 random API "
-        "calls with random pauses racing with 1-3 Stop and 0-1 Quiesce calls, built with -race, judged by the oracle only; "
+        "calls (about 1 body in 7 panics) with random pauses and NumTasks()==0 probes racing with 1-3 Stop and 0-1 Quiesce calls, "
+        "built with -race, judged by the oracle only; "
         "non-trivial = at least 20 events; distinct by event history.")
 
 
@@ -111,7 +115,7 @@ def run(tier, seed):
     res.assumptions = [
         "each region of stopper.go executed under s.mu, each channel operation, each WaitGroup operation is one atomic step of the model (sync.Mutex, channels and sync.WaitGroup/sync.Cond behave as documented; Cond.Wait re-checks in a loop)",
         "workers: only those registered before Stop's stop.Wait() returned are claimed to be waited for (WaitGroup contract); RunWorker racing with that Wait at counter zero is outside the model's claim and is not generated by the harness (sync reports it as WaitGroup misuse under -race)",
-        "callbacks (task/worker bodies, closers) do not call back into the Stopper while the model has them atomic (closers run under s.mu); panics inside callbacks and the panicking branch of Stop are not modelled",
+        "callbacks (task/worker bodies, closers) do not call back into the Stopper while the model has them atomic (closers run under s.mu); a panicking task/worker body is modelled (label LBodyPanic: the deferred <-sem, runPostlude / stop.Done run) for a Stopper built with OnPanic -- the handler call itself, a Stopper without handler (process dies), panicking closers and the panicking branch of Stop are not modelled",
         "controlled observations are taken after the real Stopper reached the state a bookkeeping twin in the harness predicts (polling, 20 s time-out) plus a 150 us grace period; what is compared with the Coq model is always the real observation",
         "ErrUnavailable vs context.Canceled when both select cases are ready is Go's choice: both accepted",
     ]
